@@ -110,7 +110,9 @@ theorem handleErr_step
       handleErr env (n + 1) states name state data ctx retries e msg st := by
   simp only [handleErr]
   split
-  · exact hF _ _ _ _ _
+  · split
+    · intro _; trivial
+    · exact hF _ _ _ _ _
   · split
     · intro _; trivial
     · split
@@ -465,7 +467,7 @@ theorem runCore_mono (env : Env) (n m : Nat) (h : n ≤ m) (asl input ctx : Json
   unfold runCore
   split
   · rename_i start states h1 h2
-    exact runFrom_mono env n m h states start input ctx 0 {}
+    exact runFrom_mono (env.forMachine asl) n m h states start input ctx 0 {}
   · intro _; trivial
 
 theorem run_fuel_independent (env : Env) (n m : Nat) (h : n ≤ m) (asl input ctx : Json) :
